@@ -123,7 +123,7 @@ class LoopMixin:
             rec = self.st.dicts[it.did]
             if rec.kind == "conc":
                 return [("conc", [k for k, _ in rec.items])]
-            raise Unsupported("iteration over a symbolic dict")
+            return [self._dict_seg(it, "keys")]
         if isinstance(it, SObj):
             rec = self.st.objs[it.oid]
             if rec.cls == "$range":
@@ -157,7 +157,7 @@ class LoopMixin:
                     if mode == "values":
                         return [("conc", [v for _, v in drec.items])]
                     return [("conc", [k for k, _ in drec.items])]
-                raise Unsupported("iteration over a symbolic dict")
+                return [self._dict_seg(d, rec.fields["mode"])]
         if isinstance(it, SVal):
             from . import builtins_model as BM
 
@@ -167,6 +167,26 @@ class LoopMixin:
         if isinstance(it, SClass) and self.index.is_enum(it.ci):
             return [("conc", [self.enum_member(it.ci, m) for m, _ in self.index.enum_members(it.ci)])]
         raise Unsupported(f"iteration over {type(it).__name__}")
+
+    def _dict_seg(self, d, mode):
+        """Iteration over a symbolic dict: the bound variable ranges over key codes, guarded by presence.  The key space
+        is [0, hi) for a fresh hi beyond every present key (iteration order is unspecified, as for any dict we know
+        nothing about)."""
+        rec = self.st.dicts[d.did]
+        g = fresh_int("g")
+        hi = rec.meta.get("key_hi")
+        if hi is None:
+            hi = fresh_int("key_hi")
+            k = z3.Int(fresh_name("k"))
+            self.st.assume(hi >= 0)
+            rec.meta["key_hi"] = hi
+        # every present key lies in the range (re-stated for the current version of the presence array)
+        k = z3.Int(fresh_name("k"))
+        self.st.assume(z3.ForAll([k], z3.Implies(z3.Select(rec.has, k), z3.And(k >= 0, k < hi))))
+        key = SStr(g)
+        val = self.ops.unval(z3.Select(rec.vals, g), rec.val_type)
+        mapv = key if mode == "keys" else (val if mode == "values" else STuple([key, val]))
+        return Seg(-3, (), hi, g, z3.Select(rec.has, g), mapv)
 
     # ================================================================== for
     def exec_for(self, node, env) -> None:
